@@ -12,12 +12,13 @@ theorem field_hexOne (st : Style) (env : PEnv) (s : Bytes) (hs : ∀ x ∈ s, x 
   have hle : ¬ s.length > 255 := by omega
   simp [parseField, parseFieldExtra, unescapeCP_plain_all _ hp, unhexlify_hexlify s hs, hle]
 
-theorem field_b64One (st : Style) (env : PEnv) (s : Bytes) (hs : ∀ x ∈ s, x < 256) (hne : s ≠ []) :
+theorem field_b64One (st : Style) (env : PEnv) (s : Bytes) (hs : ∀ x ∈ s, x < 256) (hne : s ≠ []) (hl : s.length ≤ 65535) :
     FieldRT st env .b64One (.b s) (b64Encode s) ⟨.ident, b64Encode s⟩ := by
   have hp := b64Encode_plain s
   have hn : b64Encode s ≠ [] := fun e => hne ((b64Encode_eq_nil s).mp e)
   refine ⟨rfl, lexes_plain _ hn hp, ?_, notHash_plain _ hp⟩
-  simp [parseField, parseFieldExtra, unescapeCP_plain_all _ hp, b64_roundtrip s hs]
+  have hle : ¬ s.length > 65535 := by omega
+  simp [parseField, parseFieldExtra, unescapeCP_plain_all _ hp, b64_roundtrip s hs, hle]
 
 theorem rcodeEnumOk : EnumOk ConstsC05.rcodeTsigTexts ConstsC05.rcodeNames [] 4095 := by decide +kernel
 
